@@ -28,8 +28,12 @@ def graph_specs(draw, tier="quick", large=None):
         n = draw(st.integers(10, 40))
     else:
         n = draw(st.integers(1, 9 if tier == "thorough" else 7))
-    scheme = draw(st.sampled_from(["int", "str", "tuple"]))
-    labels = [[i, f"n{i}", (i // 3, i % 3)][["int", "str", "tuple"].index(scheme)] for i in range(n)]
+    # "centred": integers / coordinates around the origin - CPython hashes -1 and -2 (and tuples that differ only there)
+    # to the same value, so distinct states with equal hashes are routine on such grids
+    scheme = draw(st.sampled_from(["int", "str", "tuple", "centred_int", "centred_tuple"]))
+    half = n // 2
+    labels = [{"int": i, "str": f"n{i}", "tuple": (i // 3, i % 3), "centred_int": i - half - 1,
+               "centred_tuple": (i % 4 - 2, i // 4 - 1)}[scheme] for i in range(n)]
     perm = draw(st.permutations(list(range(n))))
     labels = [labels[perm[i]] for i in range(n)]
     nact = draw(st.integers(2, 5)) if large else draw(st.integers(1, 3))
